@@ -5,7 +5,7 @@
    the model. *)
 From Coq Require Import String List Bool ZArith NArith Arith QArith.
 From GV Require Import Base.Outcome Base.AMap Model.GState Model.Creation Model.Query
-     Model.Components Model.Cluster Model.Square Spec.ReachDef Spec.ClusterDef Spec.ClusterSpec.
+     Model.Components Model.Cluster Model.ClusterW Model.Square Spec.ReachDef Spec.ClusterDef Spec.ClusterSpec.
 From GV Require Export Run.RunGraph.
 Import ListNotations.
 Close Scope Q_scope.
@@ -29,6 +29,11 @@ Definition avg_obs (kind : Z) (r : outcome (option Q)) : obs :=
   | Ok (Some v) => (kind, [[0; 0]], [v])
   | _ => (kind, [[outcome_code r; 0]], [])
   end.
+
+Definition calls_w (g : zstate) (nn : option (list Z)) : list obs :=
+  mapq_obs 42 1043 (clustering_weighted zeqb g nn) ++
+  [avg_obs 44 (average_clustering_weighted zeqb g nn true);
+   avg_obs 45 (average_clustering_weighted zeqb g nn false)].
 
 Definition calls (g : zstate) (nn : option (list Z)) : list obs :=
   let tr := triangles zeqb g nn in
@@ -161,8 +166,9 @@ Definition obs_of (c : clcase) : list obs :=
     [(2, [get_all_node_names g], []);
      match tv with Ok v => (36, [[0]], [v]) | _ => (36, [[outcome_code tv]], []) end;
      (29, [[-1]], [])] ++
-    calls g None ++
-    flat_map (fun is_ => (29, [[fst is_]], []) :: calls g (Some (snd is_)))
+    calls g None ++ (if cl_weighted c then calls_w g None else []) ++
+    flat_map (fun is_ => (29, [[fst is_]], []) :: calls g (Some (snd is_)) ++
+                         (if cl_weighted c then calls_w g (Some (snd is_)) else []))
              (combine (seqZ 0 (length (cl_subs c))) (cl_subs c)) ++
     [(49, [[if chk_defs g && forallb (chk_subset g) (cl_subs c) then 1 else 0]], [])]
   | _ => []
